@@ -58,7 +58,22 @@ func (c *Criteria) Validate() {
 
 func (c *Criteria) NotUsedName(name string) string {
 	count := c.countWithPrefix(name)
-	return firstFreeName(name, count)
+	free := firstFreeName(name, count)
+	// the number of criteria with this prefix can be the suffix of one that still exists (an earlier one was omitted)
+	for c.hasId(free) {
+		count++
+		free = firstFreeName(name, count)
+	}
+	return free
+}
+
+func (c *Criteria) hasId(id string) bool {
+	for _, cr := range *c {
+		if cr.Id == id {
+			return true
+		}
+	}
+	return false
 }
 
 func firstFreeName(name string, count int) string {
